@@ -56,8 +56,8 @@ def events(ck, id0, quick):
     ipairs = list(itertools.product(INTS, INTS))
     rpairs = list(itertools.product(RATS, RATS))
     if quick:
-        ipairs = [p for k, p in enumerate(ipairs) if (k + ck.seed) % 3 == 0]
-        rpairs = [p for k, p in enumerate(rpairs) if (k + ck.seed) % 2 == 0]
+        ipairs = ck.rng.sample(ipairs, len(ipairs) // 3)
+        rpairs = ck.rng.sample(rpairs, len(rpairs) // 2)
     for sort, pairs in (("Int", ipairs), ("Real", rpairs)):
         for a, b in pairs:
             for op in ops:
@@ -95,4 +95,81 @@ def events(ck, id0, quick):
                     ev["exc"] = "%s: %s" % (type(ex).__name__, str(ex)[:100])
                 ck.count()
                 evs.append(ev)
+    return evs
+
+
+def nat(n):
+    return [int(c) for c in reversed(str(n))] if n else []
+
+
+BVNONE = {"k": "other", "v": [], "w": 0, "b": 0}
+
+
+def bvout(node):
+    o = dict(BVNONE)
+    if node.is_bv_constant():
+        o.update(k="bv", v=nat(node.constant_value()), w=node.bv_width())
+    elif node.is_bool_constant():
+        o.update(k="bool", b=1 if node.constant_value() else 0)
+    return o
+
+
+def bv_events(ck, id0, quick):
+    """Bit-vector operators at widths 32, 33, 64, 65, 128 (kind "bigbv", Contracts!BigBVContract)."""
+    from pysmt.typing import BVType
+    warnings.simplefilter("ignore")
+    evs = []
+    binops = ["bv_add", "bv_sub", "bv_mul", "bv_udiv", "bv_urem", "bv_and", "bv_or", "bv_xor", "bv_lshl", "bv_lshr", "bv_ashr",
+              "bv_sdiv", "bv_srem", "bv_ult", "bv_ule", "bv_slt", "bv_sle", "equals", "bv_concat"]
+    for w in ((33, 64, 128) if quick else (32, 33, 64, 65, 128)):
+        vals = [0, 1, 3, w - 1, w, w + 1, 2 ** (w - 1), 2 ** (w - 1) - 1, 2 ** w - 1, 2 ** w - 2, (2 ** w) // 3, (2 ** (w + 1)) // 3 % 2 ** w,
+                2 ** (w // 2) + 1, 10 ** 9 + 7]
+        pairs = list(itertools.product(vals, vals))
+        if quick:
+            pairs = ck.rng.sample(pairs, 40)
+        cases = [(op, a, b, []) for (a, b) in pairs for op in binops]
+        for a in vals:
+            cases += [("bv_not", a, 0, []), ("bv_neg", a, 0, []), ("bv_zext", a, 0, [7]), ("bv_sext", a, 0, [9]),
+                      ("bv_extract", a, 0, [w - 1, w - 8]), ("bv_extract", a, 0, [w // 2 + 3, 5]), ("bv_extract", a, 0, [0, 0]),
+                      ("bv_rol", a, 0, [1]), ("bv_rol", a, 0, [w - 3]), ("bv_ror", a, 0, [5]), ("bv_ror", a, 0, [w])]
+        for op, a, b, p in cases:
+            env = fresh_env()
+            m = env.formula_manager
+            x, y = m.Symbol("x", BVType(w)), m.Symbol("y", BVType(w))
+            table = {"bv_add": m.BVAdd, "bv_sub": m.BVSub, "bv_mul": m.BVMul, "bv_udiv": m.BVUDiv, "bv_urem": m.BVURem, "bv_and": m.BVAnd,
+                     "bv_or": m.BVOr, "bv_xor": m.BVXor, "bv_lshl": m.BVLShl, "bv_lshr": m.BVLShr, "bv_ashr": m.BVAShr, "bv_sdiv": m.BVSDiv,
+                     "bv_srem": m.BVSRem, "bv_ult": m.BVULT, "bv_ule": m.BVULE, "bv_slt": m.BVSLT, "bv_sle": m.BVSLE, "equals": m.Equals,
+                     "bv_concat": m.BVConcat}
+            ev = {"id": id0 + len(evs), "kind": "bigbv", "op": op, "w": w, "a": nat(a), "b": nat(b), "p": p, "res": "error",
+                  "simp": BVNONE, "gv": BVNONE, "back": True, "exc": ""}
+            try:
+                if op in table:
+                    mk = lambda u, v: table[op](u, v)
+                elif op == "bv_not":
+                    mk = lambda u, v: m.BVNot(u)
+                elif op == "bv_neg":
+                    mk = lambda u, v: m.BVNeg(u)
+                elif op == "bv_zext":
+                    mk = lambda u, v: m.BVZExt(u, p[0])
+                elif op == "bv_sext":
+                    mk = lambda u, v: m.BVSExt(u, p[0])
+                elif op == "bv_extract":
+                    mk = lambda u, v: m.BVExtract(u, p[1], p[0])
+                elif op == "bv_rol":
+                    mk = lambda u, v: m.BVRol(u, p[0])
+                else:
+                    mk = lambda u, v: m.BVRor(u, p[0])
+                ca, cb = m.BV(a, w), m.BV(b, w)
+                t = mk(ca, cb)
+                ev["simp"] = bvout(t.simplify())
+                ev["gv"] = bvout(EagerModel({x: ca, y: cb}, env).get_value(mk(x, y)))
+                f = t if t.get_type().is_bool_type() else m.Equals(t, t)
+                back = SmtLibParser(env).get_script(io.StringIO("(assert %s)" % to_smtlib(f, daggify=False))).commands[-1].args[0]
+                ev["back"] = back is f
+                ev["res"] = "ok"
+                ck.nontrivial(("bigbv", op, w, a, b, tuple(p)))
+            except Exception as ex:
+                ev["exc"] = "%s: %s" % (type(ex).__name__, str(ex)[:100])
+            ck.count()
+            evs.append(ev)
     return evs
